@@ -1,0 +1,278 @@
+//go:build verif
+
+// Ownership tracking of packet buffers (build tag verif). PacketPool.Get and PacketPool.Put call
+// verifOnGet / verifOnPut; with a tracker installed every call is logged with the identity of the
+// buffer (its index in the pool), the calling goroutine and the stage that goroutine runs (found
+// on the call stack). Without an installed tracker the hooks return immediately. Add-only; no
+// behaviour change.
+
+package router
+
+import (
+	"fmt"
+	"runtime"
+	"strings"
+	"sync"
+	"sync/atomic"
+	"unsafe"
+)
+
+// Kinds of VerifPoolEvent.
+const (
+	VerifPoolGet = 0 // PacketPool.Get returned the buffer to goroutine G
+	VerifPoolPut = 1 // goroutine G is about to return the buffer with PacketPool.Put
+	VerifPoolUse = 2 // goroutine G presented the buffer to a BatchConn (ReadBatch / WriteBatch)
+)
+
+// Stages (the function a goroutine runs, outermost match on the call stack).
+const (
+	VerifPoolStageOther  = 0
+	VerifPoolStageInit   = 1 // dataPlane.initPacketPool (initial fill)
+	VerifPoolStageRecv   = 2 // udpip udpConnection.receive (incl. the link's receive)
+	VerifPoolStageProc   = 3 // dataPlane.runProcessor
+	VerifPoolStageSlow   = 4 // dataPlane.runSlowPathProcessor
+	VerifPoolStageBFD    = 5 // bfdSend.Send
+	VerifPoolStageSend   = 6 // udpip udpConnection.send
+	VerifPoolStageILProc = 7 // udpip internalLink.runProcessor
+)
+
+var verifPoolStageFuncs = []struct {
+	suffix string
+	stage  int
+}{
+	{"router.(*dataPlane).initPacketPool", VerifPoolStageInit},
+	{"udpip.(*udpConnection).receive", VerifPoolStageRecv},
+	{"router.(*dataPlane).runProcessor", VerifPoolStageProc},
+	{"router.(*dataPlane).runSlowPathProcessor", VerifPoolStageSlow},
+	{"router.(*bfdSend).Send", VerifPoolStageBFD},
+	{"udpip.(*udpConnection).send", VerifPoolStageSend},
+	{"udpip.(*internalLink).runProcessor", VerifPoolStageILProc},
+}
+
+// VerifPoolEvent is one logged event.
+type VerifPoolEvent struct {
+	Kind int
+	Tok  int // index of the buffer in the pool (order of the initial fill); -1 = not a pool buffer
+	G    int // index into Threads()
+}
+
+// VerifPoolThread identifies one goroutine that touched a buffer.
+type VerifPoolThread struct {
+	GoID  uint64
+	Stage int
+}
+
+// VerifPoolTracker logs the events and keeps a shadow of the pool membership so that a double
+// Put and a Get of a buffer that is not in the pool are reported directly.
+type VerifPoolTracker struct {
+	mu         sync.Mutex
+	toks       map[*Packet]int
+	bufs       map[unsafe.Pointer]int // last byte of the buffer array -> token
+	inPool     []bool
+	holder     []int
+	threads    []VerifPoolThread
+	gidx       map[uint64]int
+	events     []VerifPoolEvent
+	violations []string
+	maxEvents  int
+	dropped    int
+}
+
+var verifPoolTracker atomic.Pointer[VerifPoolTracker]
+
+// VerifPoolInstall makes t the tracker that the pool hooks report to (nil: none).
+func VerifPoolInstall(t *VerifPoolTracker) { verifPoolTracker.Store(t) }
+
+// VerifPoolNewTracker returns an empty tracker that logs at most maxEvents events (the shadow
+// state is kept up to date beyond that).
+func VerifPoolNewTracker(maxEvents int) *VerifPoolTracker {
+	return &VerifPoolTracker{
+		toks:      map[*Packet]int{},
+		bufs:      map[unsafe.Pointer]int{},
+		gidx:      map[uint64]int{},
+		maxEvents: maxEvents,
+	}
+}
+
+func verifOnGet(pkt *Packet) {
+	if t := verifPoolTracker.Load(); t != nil {
+		t.onGet(pkt)
+	}
+}
+
+func verifOnPut(pkt *Packet) {
+	if t := verifPoolTracker.Load(); t != nil {
+		t.onPut(pkt)
+	}
+}
+
+// verifPoolWho returns the goroutine id and the stage of the caller.
+func verifPoolWho() (uint64, int) {
+	var sb [64]byte
+	n := runtime.Stack(sb[:], false)
+	// "goroutine 123 [running]:..."
+	var id uint64
+	for _, c := range sb[len("goroutine "):n] {
+		if c < '0' || c > '9' {
+			break
+		}
+		id = id*10 + uint64(c-'0')
+	}
+	var pcs [48]uintptr
+	k := runtime.Callers(3, pcs[:])
+	frames := runtime.CallersFrames(pcs[:k])
+	stage := VerifPoolStageOther
+	for {
+		f, more := frames.Next()
+		for _, sf := range verifPoolStageFuncs {
+			if strings.HasSuffix(f.Function, sf.suffix) {
+				stage = sf.stage // keep going: the outermost match wins
+			}
+		}
+		if !more {
+			break
+		}
+	}
+	return id, stage
+}
+
+// thread returns the index of the calling goroutine (mu held).
+func (t *VerifPoolTracker) thread(id uint64, stage int) int {
+	if g, ok := t.gidx[id]; ok {
+		if t.threads[g].Stage == stage {
+			return g
+		}
+		// A goroutine id seen in a different stage (a harness goroutine calling several entry
+		// points, or a reused id): a separate thread entry.
+		for i, th := range t.threads {
+			if th.GoID == id && th.Stage == stage {
+				return i
+			}
+		}
+	}
+	t.threads = append(t.threads, VerifPoolThread{GoID: id, Stage: stage})
+	t.gidx[id] = len(t.threads) - 1
+	return len(t.threads) - 1
+}
+
+func (t *VerifPoolTracker) log(kind, tok, g int) {
+	if len(t.events) >= t.maxEvents {
+		t.dropped++
+		return
+	}
+	t.events = append(t.events, VerifPoolEvent{Kind: kind, Tok: tok, G: g})
+}
+
+func (t *VerifPoolTracker) onPut(pkt *Packet) {
+	id, stage := verifPoolWho()
+	t.mu.Lock()
+	defer t.mu.Unlock()
+	if stage == VerifPoolStageInit {
+		tok := len(t.inPool)
+		t.toks[pkt] = tok
+		t.bufs[unsafe.Pointer(&pkt.buffer[bufSize-1])] = tok
+		t.inPool = append(t.inPool, true)
+		t.holder = append(t.holder, -1)
+		return
+	}
+	g := t.thread(id, stage)
+	tok, ok := t.toks[pkt]
+	if !ok {
+		t.violations = append(t.violations,
+			fmt.Sprintf("Put of a packet that is not a pool buffer by stage %d", stage))
+		t.log(VerifPoolPut, -1, g)
+		return
+	}
+	if t.inPool[tok] {
+		t.violations = append(t.violations,
+			fmt.Sprintf("double Put: buffer %d returned by stage %d while in the pool", tok, stage))
+	}
+	t.inPool[tok] = true
+	t.holder[tok] = -1
+	t.log(VerifPoolPut, tok, g)
+}
+
+func (t *VerifPoolTracker) onGet(pkt *Packet) {
+	id, stage := verifPoolWho()
+	t.mu.Lock()
+	defer t.mu.Unlock()
+	g := t.thread(id, stage)
+	tok, ok := t.toks[pkt]
+	if !ok {
+		t.violations = append(t.violations,
+			fmt.Sprintf("Get returned a packet that is not a pool buffer to stage %d", stage))
+		t.log(VerifPoolGet, -1, g)
+		return
+	}
+	if !t.inPool[tok] {
+		t.violations = append(t.violations, fmt.Sprintf(
+			"Get of a held buffer: buffer %d handed to stage %d while owned by thread %d",
+			tok, stage, t.holder[tok]))
+	}
+	t.inPool[tok] = false
+	t.holder[tok] = g
+	t.log(VerifPoolGet, tok, g)
+}
+
+// Use logs that the calling goroutine presented the given byte slices (packet payloads inside
+// pool buffers) to a BatchConn. Called by the harness' BatchConn implementation.
+func (t *VerifPoolTracker) Use(bufs [][]byte) {
+	id, stage := verifPoolWho()
+	t.mu.Lock()
+	defer t.mu.Unlock()
+	g := t.thread(id, stage)
+	for _, b := range bufs {
+		tok := -1
+		if cap(b) > 0 {
+			full := b[:cap(b)]
+			if k, ok := t.bufs[unsafe.Pointer(&full[len(full)-1])]; ok {
+				tok = k
+			}
+		}
+		if tok >= 0 && t.inPool[tok] {
+			t.violations = append(t.violations, fmt.Sprintf(
+				"use of a pooled buffer: buffer %d presented to a socket by stage %d", tok, stage))
+		}
+		t.log(VerifPoolUse, tok, g)
+	}
+}
+
+// Tok returns the token of a pool packet (-1 if unknown).
+func (t *VerifPoolTracker) Tok(pkt *Packet) int {
+	t.mu.Lock()
+	defer t.mu.Unlock()
+	if k, ok := t.toks[pkt]; ok {
+		return k
+	}
+	return -1
+}
+
+// Size is the number of registered pool buffers.
+func (t *VerifPoolTracker) Size() int {
+	t.mu.Lock()
+	defer t.mu.Unlock()
+	return len(t.inPool)
+}
+
+// Snapshot returns copies of the log, the threads, the violations seen directly and the number
+// of events that were not logged because the log was full.
+func (t *VerifPoolTracker) Snapshot() ([]VerifPoolEvent, []VerifPoolThread, []string, int) {
+	t.mu.Lock()
+	defer t.mu.Unlock()
+	return append([]VerifPoolEvent(nil), t.events...),
+		append([]VerifPoolThread(nil), t.threads...),
+		append([]string(nil), t.violations...), t.dropped
+}
+
+// ShadowInPool reports how many buffers the shadow state has in the pool.
+func (t *VerifPoolTracker) ShadowInPool() int {
+	t.mu.Lock()
+	defer t.mu.Unlock()
+	n := 0
+	for _, b := range t.inPool {
+		if b {
+			n++
+		}
+	}
+	return n
+}
